@@ -27,8 +27,8 @@ PROPS = {
              theorems=('C05.v', None), n=(1500, 40000)),
     'C06': P(flags=['x', 'g', 'e', 'd', 'w', 's', 'i', 'r', 'D', 'W', 'S'], need_any=['x', 'g', 'e'], lang=True, stages=['out'],
              theorems=('C06.v', None), n=(1500, 40000)),
-    'C07': P(flags=casegen.FLAGS, lang=False, stages=ALL_LOCAL, theorems=('C07.v', None), n=(3000, 80000)),
-    'C08': P(flags=['ns', 'ne', 'x', 'i', 'd', 'w', 'r', 'g'], need_any=['ns', 'ne'], lang=False, stages=['expr', 'final', 'out'],
+    'C07': P(flags=casegen.FLAGS, lang=False, stages=ALL_LOCAL + ['selfcheck'], theorems=('C07.v', None), n=(3000, 80000)),
+    'C08': P(flags=['ns', 'ne', 'x', 'i', 'd', 'w', 'r', 'g'], need_any=['ns', 'ne'], lang=False, stages=['expr', 'final', 'out', 'selfcheck'],
              theorems=('C08.v', None), n=(2000, 50000)),
     'C09': P(flags=['d', 'D', 's', 'S', 'w', 'W'], need_any=['d', 'D', 's', 'S', 'w', 'W'], lang=True, stages=['clusters_k'],
              theorems=('C09.v', None), n=(600, 5000), special='c09'),
@@ -36,9 +36,9 @@ PROPS = {
              theorems=('C11.v', None), n=(1500, 40000), alphabets=['astral', 'bound', 'marks', 'mixed', 'cased', 'ws']),
     'C13': P(flags=['r', 'd', 'w', 'x', 'g', 'e', 'i'], lang=False, stages=['clusters_r', 'trie', 'out'], theorems=('C13.v', None),
              n=(2000, 50000), alphabets=['a', 'ab', 'abc', 'ab.-', 'meta', 'digits']),
-    'C15': P(flags=casegen.FLAGS, force=['c'], lang=False, stages=['out'], theorems=('C15.v', None), n=(2500, 60000)),
+    'C15': P(flags=casegen.FLAGS, force=['c'], lang=False, stages=['out', 'selfcheck'], theorems=('C15.v', None), n=(2500, 60000)),
     'C16': P(flags=['r', 'd', 'w', 's', 'g'], lang=True, stages=['trie', 'min', 'expr', 'out'], theorems=('C16.v', None), n=(1500, 40000)),
-    'C10': P(flags=casegen.FLAGS, lang=False, stages=['norm', 'clusters_r', 'min', 'expr', 'out'], theorems=('C10.v', None), n=(400, 6000), runner='c10'),
+    'C10': P(flags=casegen.FLAGS, lang=False, stages=['norm', 'clusters_r', 'min', 'expr', 'out', 'selfcheck'], theorems=('C10.v', None), n=(400, 6000), runner='c10'),
     'C12': P(flags=casegen.FLAGS, lang=False, stages=[], theorems=('C12.v', None), n=(160, 4000), runner='c12'),
     'C14': P(flags=casegen.FLAGS, lang=False, stages=[], theorems=('C14.v', None), n=(600, 20000), runner='c14'),
     'C17': P(flags=[], lang=False, stages=[], theorems=('C17.v', None), n=(600, 20000), runner='c17'),
@@ -97,7 +97,21 @@ def select_cases(pid, spec, tier, seed):
             if spec.get('force') and not all(f in fl for f in spec['force']):
                 continue
             corpus.append(dict(c))
-    allc = corpus + out
+    fam = []
+    if tier != 'quick' and pid in ('C01', 'C02', 'C05', 'C08', 'C16', 'C07', 'C13'):
+        # bounded-exhaustive families: every non-empty subset of {a,b}^{<=3} with the empty string, and of {a,b,c}^{<=2}
+        frnd = random.Random(seed + 4242)
+        for sigma, k in (([97, 98], 3), ([97, 98, 99], 2)):
+            for sub in casegen.small_exhaustive(sigma, k, True):
+                fl = list(spec.get('force') or [])
+                if frnd.random() < 0.5:
+                    fl += [f for f in frnd.sample(spec['flags'], min(2, len(spec['flags']))) if f not in fl]
+                if spec.get('need_any') and not any(f in fl for f in spec['need_any']):
+                    fl.append(frnd.choice(spec['need_any']))
+                if 'E' in fl and 'e' in fl:
+                    fl.remove('e')
+                fam.append({'tcs': sub, 'f': ','.join(fl), 'mr': frnd.choice([1, 1, 2]), 'ms': frnd.choice([1, 1, 2]), 'alpha': 'exhaustive'})
+    allc = corpus + out + fam
     for i, c in enumerate(allc):
         c['id'] = i
         c['lang'] = bool(spec.get('lang'))
